@@ -20,6 +20,7 @@ Response: `<impl>\t<spec>\t<impl with the interleaved event log>`.
 -/
 import NoulithModel.Spec.ChainTree
 import NoulithModel.Generated.C03Tables
+import NoulithModel.Spec.ChainTables
 
 namespace Noulith.DriverC03
 open Noulith Noulith.Chain
@@ -250,28 +251,36 @@ def lookupReal (name : String) : Option (Op ROp) :=
       | none => (false, [])
     some ⟨⟨r.bname, cmp, acc⟩, ⟨.fin p, if r.rassoc then .right else .left⟩⟩
 
+/-- the same operator according to the hand-written Spec tables (README rule, property text) -/
+def lookupSpec (name : String) : Option (Op ROp) :=
+  if name == "" then none else
+  some ⟨⟨SpecTables.specBuiltinName name, SpecTables.comparisonNames.contains name,
+          SpecTables.specAccepts name⟩,
+        ⟨.fin (SpecTables.specPrecedence name), if SpecTables.specRassoc name then .right else .left⟩⟩
+
 def runR (f : ROp) (args : List String) : Out String :=
   .ok ("(" ++ joinWith " " (f.name :: args) ++ ")")
 
-def parseRealPairs : List String → Option (List (Op ROp × Nat))
+def parseRealPairs (look : String → Option (Op ROp)) : List String → Option (List (Op ROp × Nat))
   | [] => some []
   | o :: x :: rest =>
-    match lookupReal o, x.toNat?, parseRealPairs rest with
+    match look o, x.toNat?, parseRealPairs look rest with
     | some g, some i, some r => some ((g, i) :: r)
     | _, _, _ => none
   | _ => none
 
-def handleReal (first : Nat) (pairs : List (Op ROp × Nat)) : String :=
+def handleReal (first : Nat) (pairsI pairsS : List (Op ROp × Nat)) : String :=
   let lf : Nat → String := fun i => s!"#{i}"
-  let impl := evalChain runR tryChainR (lf first) (pairs.map fun (g, i) => (g.fn, g.prec, lf i))
-  let spec := semM runR tryChainR lf (climbTree tryChainR (⟨first, pairs⟩ : ChainOf ROp Nat))
+  let impl := evalChain runR tryChainR (lf first) (pairsI.map fun (g, i) => (g.fn, g.prec, lf i))
+  let spec := semM runR tryChainR lf (climbTree tryChainR (⟨first, pairsS⟩ : ChainOf ROp Nat))
   impl.render id ++ "\t" ++ spec.render id ++ "\t-"
 
 /-- precedence of a registered name according to the generated tables (for the run-time cross-check) -/
 def handlePrec (name : String) : String :=
+  let sp := s!"ok {SpecTables.specPrecedence name} {if SpecTables.specRassoc name then "R" else "L"}"
   match lookupReal name with
   | some g => match g.prec.p with
-    | .fin p => s!"ok {p}\tok {p}\t{if g.prec.a == .right then "R" else "L"}"
+    | .fin p => s!"ok {p} {if g.prec.a == .right then "R" else "L"}\t{sp}\t-"
     | .nan => "bad-op"
   | none => "bad-op"
 
@@ -289,9 +298,9 @@ def handle (args : List String) : String :=
       | none => "bad-op"
     | none => "bad-op"
   | "real" :: first :: rest =>
-    match first.toNat?, parseRealPairs rest with
-    | some f, some ps => handleReal f ps
-    | _, _ => "bad-op"
+    match first.toNat?, parseRealPairs lookupReal rest, parseRealPairs lookupSpec rest with
+    | some f, some ps, some ss => handleReal f ps ss
+    | _, _, _ => "bad-op"
   | ["prec", name] => handlePrec name
   | ["names"] => joinWith " " ((Gen.registrations.filter (·.cfg == "")).map (·.name))
   | _ => "bad-op"
